@@ -22,6 +22,18 @@ def run(pid, tier):
         o.finding(kind='tables', detail=detail, signature='tables:' + detail[:120])
     else:
         require_ok(r, 'ZigTables')
+    # sub-claim 1: the design of the loop samples a (toy, rational) density exactly up to lattice resolution;
+    # deliberately wrong designs must fail the same check (otherwise the check would be vacuous)
+    for variant in ('code', 'rect_uses_xi', 'wedge_index_off', 'no_x0_convention'):
+        rz = tlc('ZigToyLaw', 'ZigToy_%s.cfg' % variant, pid, 'toy_' + variant, workers=2, timeout=1200, heap='3g')
+        holds = 'Assumption' not in rz.out and 'is false' not in rz.out
+        if 'ZIGTOY' not in rz.out:
+            raise ToolError('ZigToyLaw did not evaluate (%s): %s' % (variant, rz.out[-800:]))
+        o.add_tlc(rz, 'ZigToy design law, variant %s: %s' % (variant, 'holds' if holds else 'fails'))
+        if variant == 'code' and not holds:
+            o.finding(kind='design', invariant='ZigToy LawHolds', detail=rz.out[-2500:], signature='design:zigtoy')
+        if variant != 'code' and holds:
+            raise ToolError('ZigToy: wrong design %s passes the law check (vacuous)' % variant)
     tr = wd / 'zig.ndjson'
     s2 = rdv(['zig-drive', '--seed', sd, '--random', 20000 if tier == 'quick' else 400000, '--out', tr])
     lines = tr.read_text().splitlines()
@@ -47,7 +59,7 @@ def run(pid, tier):
     o.samples.append({'kind': 'scripted ziggurat call', 'event': json.loads(lines[100])})
     o.assumptions = [
         'NOT decided: F[i] = f(X[i]) to 1e-14 (needs exp), v = r f(r) + tail area (needs erfc/exp), the accept/reject decision inside the wedge (compares with exp), the laws of the tail routines, the statistical match per layer',
-        'the toy-density exact-law model of the ziggurat design (DESIGN C06 item 1) was not built; the loop is specified as an automaton over observable facts (layer bits, sign bit, words consumed, result region)',
+        'design level: ZigToy.tla counts tickets of the transcribed loop on a rational toy density (4 layers, 48x48 lattice): law holds up to lattice resolution, three wrong designs fail; the real loop is bound by the automaton over observable facts (layer bits, sign bit, words consumed, result region)',
         'fixed-point limbs floor(x*2^40), floor(f*2^45) and ordinals are representation changes made by the harness',
     ]
     return o.finish()
